@@ -78,7 +78,8 @@ struct HSel : Harness {
     int rcb = sim_guard(call_alg, &cb);
     int unj = sim_unjoined();
     sim_result srb; sim_end_run(&srb);
-    std::string rcls = srb.races ? race_class() : "", rtxt = srb.races ? races_text() : "";
+    std::string rcls = (srb.races && races_are_verdicts()) ? race_class() : "", rtxt = srb.races ? races_text() : "";
+    if (srb.races && !races_are_verdicts()) o.counters["advisory.races_not_decided"]++;
     const sim_switch *sw; size_t nsw = sim_switches(&sw);
     fill_outcome_from_sim(o, sra, plan_strategy); fill_outcome_from_sim(o, srb, plan_strategy);
     o.sched_sig = srb.sched_sig; o.nontrivial = srb.max_live >= 2;
